@@ -531,28 +531,45 @@ func (in *w13Instance) close() {
 		defer func() { _ = os.RemoveAll(in.dir) }()
 		dbs := in.allDbs()
 		if in.dirty {
+			// A shard mutex may be locked for ever. Everything that does not need one is still ended so
+			// that the garbage collector can take the instance back (a run that shrinks a crash leaves
+			// hundreds of such instances behind): the timer loops (they would otherwise start a sweep
+			// goroutine per shard and second, each blocking on the dead mutex), the AOF and subscribe
+			// channels, and the executors (bounded wait: a Run goroutine may sit on the dead mutex).
+			if in.noStop {
+				return
+			}
+			in.slock.state = STATE_CLOSE
 			for _, db := range dbs {
-				held := 0
-				for _, g := range db.managerGlocks {
-					ok := false
-					for try := 0; try < 50 && !ok; try++ {
-						if ok = g.mutex.TryLock(); !ok {
-							time.Sleep(time.Millisecond)
-						}
+				db.status = STATE_CLOSE
+			}
+			for _, db := range dbs {
+				for i := uint16(0); i < db.managerMaxGlocks; i++ {
+					in.slock.GetAof().CloseAofChannel(db.aofChannels[i])
+					if db.subscribeChannels != nil {
+						in.slock.GetSubscribeManager().CloseSubscribeChannel(db.subscribeChannels[i])
 					}
-					if !ok {
-						break
+					if ex := db.executors[i]; ex != nil {
+						go func() {
+							defer func() { _ = recover() }()
+							ex.Close()
+						}()
 					}
-					held++
-				}
-				if held == len(db.managerGlocks) && !in.noStop {
-					db.status = STATE_CLOSE
-				}
-				for i := 0; i < held; i++ {
-					db.managerGlocks[i].mutex.Unlock()
 				}
 			}
-			time.Sleep(1500 * time.Millisecond)
+			// the managers own goroutines that keep the whole instance reachable
+			// (TransparencyManager.Run, ...); their Close may wait for something that sits on the dead
+			// mutex, so it runs unattended
+			go func() {
+				defer func() { _ = recover() }()
+				time.Sleep(1200 * time.Millisecond)
+				in.slock.replicationManager.Close()
+				if in.slock.subscribeManager != nil {
+					in.slock.subscribeManager.Close()
+				}
+				in.slock.admin.Close()
+				in.slock.aof.Close()
+			}()
 			return
 		}
 		done := make(chan struct{})
